@@ -12,9 +12,9 @@ PH = ["Sleep", "Mark", "Sweep"]
 
 
 class Out:
-    def __init__(self, m, o):
+    def __init__(self, m, o, ret_map=None):
         self.kind = o.kind
-        self.ret = self._ret(m, o.value)
+        self.ret = ret_map[o.value] if (ret_map and o.value in ret_map) else self._ret(m, o.value)
         self.post = m.snapshot(o.st)
         self.ev = list(o.ev)
         self.path = list(o.path)
@@ -105,7 +105,8 @@ class Tables:
             raw = self.m.run(name, args, st)
             # 'loop' outcomes are paths cut where they re-enter an already explored state (their continuation is
             # covered by the path that first reached it): not terminal outcomes
-            outs = [Out(self.m, o) for o in raw if o.kind != "loop"]
+            rm = self.m.step_ret_map(prim) if prim in ("mark_one", "sweep_one") else None
+            outs = [Out(self.m, o, rm) for o in raw if o.kind != "loop"]
             r = Row(prim, pre, outs)
             r.loops = sum(1 for o in raw if o.kind == "loop")
             r.init = init
